@@ -245,6 +245,21 @@ static void g_unicode(void) {
             judge(1, r != 0, r, SP | CE | SL, 1);
         }
     }
+    /* wcsfc_s: the characters the special-casing rules of Turkish/Azeri and Lithuanian concern (the library goes by the name of the current
+       locale), every sequence of 1..3 of them, dmax from 1 to past the longest result */
+    { static const wchar_t LA[] = { 'I', 'J', 0x130, 0xcc, 0xcd, 0x128, 0x12e, 0x307, 0x301, 'a' }; const int nla = 10;
+      for (int n = 1; n <= 3; n++) { long cnt = 1; for (int i = 0; i < n; i++) cnt *= nla;
+        for (long q = 0; q < cnt; q++) {
+            wchar_t src[8]; long t = q; for (int i = 0; i < n; i++) { src[i] = LA[t % nla]; t /= nla; } src[n] = 0;
+            const wchar_t *sp = mksrc(1, src, (n + 1) * sizeof(wchar_t));
+            for (size_t dmax = 1; dmax <= (size_t)3 * n + 2; dmax++) {
+                char rel[64]; snprintf(rel, sizeof rel, "%s,locale-special", dmax > (size_t)3 * n ? "ample" : "tight");
+                begin("wcsfc_s", rel, "wcsfc-special %d %ld %zu", n, q, dmax);
+                wchar_t *d = mkdest(dmax, 4, 0); size_t len = 0x7777; int r = 0;
+                CALL(r = wcsfc(d, dmax, sp, &len, BOSU));
+                judge(1, r != 0, r, SP | CE | SL, 1);
+            }
+        } } }
     /* wcsnorm_s around the needed size, all four modes of interest */
     static const wchar_t *NS[] = { L"é", L"é", L"각", L"각", L"ạ́b", L"ṩ", L"Ǻ", L"Å", L"", L"plain", L"abc\x1f82", L"ab\xac01", L"\x1f82" };
     for (int si = 0; si < 13; si++) for (int mode = 0; mode < 2; mode++) for (int known = 0; known < 2; known++) {      /* known: the object size is passed and equals dmax */
